@@ -267,6 +267,20 @@ CHECKS = {
         "union/shadow, ArrayAlignment and new-style collections, offsets on alignment rows not covered; no code->spec trace validation.",
         technique="TLA+ denotation model of features over views (TLC exhaustive) + spec->code state/transition replay",
     ),
+    "C06": dict(
+        category="model_checking",
+        text="LineStream.tla transcribes iter_splitlines as a state machine (chunk reads incl. short reads, universal newlines, flush) "
+        "and TLC proves the yielded lines equal an independently written SplitLines for every text over {a,b,\\n,\\r} up to length 5 (7) "
+        "and every chunk size; SeqFormats.tla models the FASTA/PHYLIP/PAML/GDE writers at line level and transcribes the parser variants, "
+        "proving Parse(Write(x)) = Trunc(x) on clean names and characterising where it fails; SeqFormatsGb.tla models GenBank flat files. "
+        "All emitted (text, chunk) pairs and name/sequence families are executed on the real iter_splitlines/iter_line_blocks, writers "
+        "(plain/gz/bz2), loaders and up to 28 parser variants per format (bytes vs line based, strict/non-strict, streamed with several "
+        "chunk sizes), plus JSON round trips and minimal/rich GenBank parsers.",
+        design_ref="DESIGN.md section 2 / C06",
+        note="Trusted: TLC, harness instantiation of character classes. clustal/nexus/xmfa/msf (no writer), interleaved PHYLIP, chardet on "
+        "non-ASCII input, lower-case residues, all-blank names not covered; zero-length sequences have a listed open outcome.",
+        technique="TLA+ transcription of the line streamer and parser variants + writer relations (TLC) + spec->code replay",
+    ),
 }
 
 PENDING = {}
